@@ -521,7 +521,7 @@ func directC07(g *G, rep *Report) {
 				// the property speaks of the rendered template's own declared params, so only names that
 				// are not an optional param of any template count.
 				for _, k := range names {
-					if !isOptionalParamSomewhere(b, k) && !strings.HasSuffix(k, "__index") && !strings.HasSuffix(k, "__lastIndex") {
+					if !isOptionalParamSomewhere(b, k) && !strings.HasSuffix(k, ".index") && !strings.HasSuffix(k, ".lastIndex") {
 						unbound++
 						rep.Violations = append(rep.Violations, Viol{Key: "unbound-lookup:" + k, What: "render of an accepted template looked up the unbound name " + k,
 							Req: req("check", encSources(fs), "(files)"), Note: t.full(), Impl: "unbound " + k, Want: "no unbound lookup"})
